@@ -84,7 +84,7 @@ func init() {
 		ID:        "C01",
 		Level:     "model_checking",
 		Technique: "bounded exhaustive enumeration of programs/operands/entry points executed on the real interpreter, compared per execution with the upstream go-ethereum v1.12.0 interpreter as reference model",
-		Rule: "cases = instruction matrix (every standard opcode x operand tuples with <=k non-default operands from boundary alphabets x pre-state shapes) + all macro sequences of length <=L + every byte string of length <=2 (3 over class representatives in thorough) as code + short sequences through all six entry points + scenario call trees (mutually calling contract sets: six call kinds x values x targets child/precompile/code-less/self x 7 terminators with SSTORE/LOG effects, Byzantium..Shanghai) + SSTORE sequences (<=3 stores to one slot over 4 values, original zero / non-zero) + self-destruct sequences (<=3 calls into two self-destructing contracts x 5x5 beneficiaries x value) + creation sequences (<=2, thorough 3, over CREATE / CREATE2 with two salts x 5 init codes) + each extra EIP singly on the fork before its activation, on the 12 forks Frontier..Shanghai; each compared in 4 /repo configurations (debug tracer on/off x join points on-with-nothing-bound/off). evaluations = reference/implementation pairs; states = distinct reference observations; non-trivial = distinct programs whose reference run consumed gas",
+		Rule: "cases = instruction matrix (every standard opcode x operand tuples with <=k non-default operands from boundary alphabets x pre-state shapes) + all macro sequences of length <=L + every byte string of length <=2 (3 over class representatives in thorough) as code + short sequences through all six entry points + scenario call trees (mutually calling contract sets: six call kinds x values x targets child/precompile/code-less/self x 7 terminators with SSTORE/LOG effects, Byzantium..Shanghai) + SSTORE sequences (<=3 stores to one slot over 4 values, original zero / non-zero) + self-destruct sequences (<=3 calls into two self-destructing contracts x 5x5 beneficiaries x value) + creation sequences (<=2, thorough 3, over CREATE / CREATE2 with two salts x 5 init codes) + calls of every kind into precompiles 1-9 with overlapping / coinciding / disjoint argument and return windows followed by a read of the return-data buffer + each extra EIP singly on the fork before its activation, on the 12 forks Frontier..Shanghai; each compared in 4 /repo configurations (debug tracer on/off x join points on-with-nothing-bound/off). evaluations = reference/implementation pairs; states = distinct reference observations; non-trivial = distinct programs whose reference run consumed gas",
 		Assumptions: []string{
 			"reference model is go-ethereum v1.12.0 core/vm from the module cache, driven on an identically built state.StateDB",
 			"operand values outside the boundary alphabets and programs longer than the bound are not covered",
